@@ -2,7 +2,7 @@ CONSTANTS
   Members = {1,2,3,4,5,6,7,8}
   Period = 3
   AcceptTimeout = 2
-  Bind = {"vote", "newvoter", "accept", "group", "epoch", "accepted", "seq", "pubkeys", "accounts", "bridge"}
+  Bind = {"vote", "newvoter", "accept", "group", "epoch", "accepted", "seq", "pubkeys", "accounts", "bridge", "probe"}
 INIT TInit
 NEXT TNext
 INVARIANTS SingleUse WellFormed
